@@ -481,6 +481,11 @@ func (c *Ctx) cellNormalisation(ins ssa.Instruction) (string, bool) {
 							continue
 						}
 					}
+					// computed from the very cell that is passed, constants and pure helpers
+					// (normalize(&p.Quality, clampInt(p.Quality, 1, 100))): still a function of the cell
+					if ci := paramIndex(fn, cell); ci >= 0 && ci < len(call.Common().Args) && dependsOnlyOnCellAt(arg, call.Common().Args[ci]) {
+						continue
+					}
 					all = false
 				}
 			}
@@ -555,6 +560,43 @@ func (c *Ctx) cellNormalisation(ins ssa.Instruction) (string, bool) {
 	return "write through the field pointer " + cell.Name() + " is guarded by tests of the pointed-to value; guards and value depend only on it and on constants", true
 }
 
+// dependsOnlyOnCellAt: v is computed only from loads of the memory cell addr names (same field of
+// the same object), constants, package-level values and pure helper calls.
+func dependsOnlyOnCellAt(v ssa.Value, addr ssa.Value) bool {
+	sameCell := func(a ssa.Value) bool {
+		if a == addr {
+			return true
+		}
+		fa, ok1 := a.(*ssa.FieldAddr)
+		fb, ok2 := addr.(*ssa.FieldAddr)
+		return ok1 && ok2 && fa.Field == fb.Field && sameBase(fa.X, fb.X)
+	}
+	for x := range backwardSlice(v, 300) {
+		switch y := x.(type) {
+		case *ssa.Parameter:
+			// the object itself may appear as the base of the cell's address only
+			if fb, ok := addr.(*ssa.FieldAddr); !ok || !sameBase(fb.X, y) {
+				return false
+			}
+		case *ssa.FreeVar, *ssa.Alloc, *ssa.Phi, *ssa.MakeClosure:
+			return false
+		case *ssa.UnOp:
+			if y.Op == token.MUL && !sameCell(y.X) {
+				if _, isG := y.X.(*ssa.Global); !isG {
+					return false
+				}
+			}
+		case *ssa.Call:
+			if sc := y.Call.StaticCallee(); sc == nil || !pureHelper(sc) {
+				if _, isB := y.Call.Value.(*ssa.Builtin); !isB {
+					return false
+				}
+			}
+		}
+	}
+	return true
+}
+
 // paramAlwaysConst: parameter p receives a constant at every static call site of its function.
 func (c *Ctx) paramAlwaysConst(p *ssa.Parameter, depth int) (string, bool) {
 	fn := p.Parent()
@@ -582,8 +624,10 @@ func (c *Ctx) paramAlwaysConst(p *ssa.Parameter, depth int) (string, bool) {
 
 // pureHelper: a small library function without stores, map updates or calls other than builtins
 // (nearestPowerOf2 and the like).
-func pureHelper(fn *ssa.Function) bool {
-	if fn.Blocks == nil || !load.InScope(fn) {
+func pureHelper(fn *ssa.Function) bool { return pureHelperRec(fn, 0) }
+
+func pureHelperRec(fn *ssa.Function, depth int) bool {
+	if fn.Blocks == nil || !load.InScope(fn) || depth > 3 {
 		return false
 	}
 	for _, b := range fn.Blocks {
@@ -593,7 +637,11 @@ func pureHelper(fn *ssa.Function) bool {
 				return false
 			case *ssa.Call:
 				if _, isB := x.Call.Value.(*ssa.Builtin); !isB {
-					if sc := x.Call.StaticCallee(); sc == nil || sc.Pkg == nil || sc.Pkg.Pkg.Path() != "math/bits" {
+					sc := x.Call.StaticCallee()
+					if sc == nil || sc.Pkg == nil {
+						return false
+					}
+					if sc.Pkg.Pkg.Path() != "math/bits" && !pureHelperRec(sc, depth+1) {
 						return false
 					}
 				}
